@@ -164,6 +164,7 @@ def run(ctx: core.Ctx):
                      note="the trusted list-level semantics of sortby / where / cumsum / argmax / isel differ from real xarray")
     else:
         ctx.count("PyXr combinators vs xarray (comparisons)", int(last[0].split()[1]))
+    core.acc_dispatch(ctx, ['croo', 'lroo'])
     ctx.trusted += ["native model driver (lean_exe of Hdc/Model/Discrete.lean)", "harness/props/c18.py oracle",
                     "Hdc/PyXr.lean: per-pixel semantics of five xarray idioms (validated against xarray on every run, not proved)",
                     "harness/py2lean_glue_px.py (croo / lroo accessor translator)"]
